@@ -98,7 +98,28 @@ class Traces:
         self.results[tid] = res
         return tid, ev, res
 
-    def judge(self, shards=16):
+    def fault_free(self, tid):
+        m = self.meta[tid]
+        if m.get("faults"):
+            return False
+        if m["kind"] == "socket" and any(not isinstance(x, int) for x in (m.get("seg") or [])):
+            return False
+        return True
+
+    def out_records(self, tids):
+        out = []
+        for tid in tids:
+            tr = self.traces[tid - 1]
+            out.append({"tid": tid, "validate": tr["validate"], "parsed": tr["parsed"], "quit": tr["quit"], "hraise": tr["hraise"],
+                        "stream": list(self.meta[tid]["data"]), "ob": framer_rec.observables(tr)})
+        return out
+
+    def judge(self, shards=16, always_out=False):
+        """
+        Exact binding first (FramerTrace: every request is the specification's request).  A trace
+        that is rejected for its READ PATTERN alone is judged again at output level (FramerOut):
+        the listed properties are about what is delivered, not about request sizes.
+        """
         verdicts, results = framer_rec.judge(self.traces, shards=shards)
         for r in results:
             self.rep.add_tlc(r)
@@ -107,6 +128,38 @@ class Traces:
         for r in results:
             for t in r.tuples("FRAME"):
                 frames.append((t[1], t[2], bytes(t[3]), t[4]))
+        pattern = [tid for tid, v in verdicts.items() if v[0] == "reject" and v[1] in framer_rec.PATTERN_CLAUSES]
+        self.out_verdicts = {}
+        if pattern or always_out:
+            ff = [t["tid"] for t in self.traces if self.fault_free(t["tid"])]
+            todo = ff if pattern else ff[:: max(1, len(ff) // 400)]
+            ov, ores, oframes = framer_rec.judge_out(self.out_records(todo), shards=shards)
+            for r in ores:
+                self.rep.add_tlc(r)
+            self.out_verdicts = ov
+            if pattern:
+                dev = {"traces": len(pattern), "judged_in_outputs": 0, "unjudged_faulted": 0,
+                       "example": list(verdicts[pattern[0]][1:])[:3]}
+                for tid in pattern:
+                    if tid in ov:
+                        dev["judged_in_outputs"] += 1
+                        v = ov[tid]
+                        verdicts[tid] = (v[0], v[1] if v[0] == "accept" else "Out:" + v[1], v[2], v[3])
+                        frames = [f for f in frames if f[0] != tid] + [f for f in oframes if f[0] == tid]
+                    else:
+                        # injected faults are tied to the request sequence: with another read pattern the
+                        # expected outcome is not defined by the properties - not judged (noted in the evidence)
+                        dev["unjudged_faulted"] += 1
+                        verdicts[tid] = ("accept", "ReadPatternDeviates:unjudged", verdicts[tid][2], verdicts[tid][3])
+                # an exactly accepted trace can still be wrong in outputs only if the specification is inconsistent
+                self.rep.notes["read_pattern_deviation"] = dev
+            for tid, v in ov.items():
+                if v[0] == "reject" and tid not in pattern and verdicts[tid][0] == "accept":
+                    # the reader conforms at ITS interface but the outputs do not follow from the bytes of
+                    # the stream: the layer below the recorded interface (socket wrapper, buffering)
+                    # answered with something else than the next bytes
+                    verdicts[tid] = ("reject", "Out:" + v[1], v[2], v[3])
+            self.rep.notes["output_level_traces"] = len(ov)
         self.frames = frames
         return verdicts
 
